@@ -21,10 +21,12 @@ HARNESS = "h_C11.cpp"
 VARIANTS = {"quick": ["assert"], "thorough": ["assert", "asan"]}
 AXIOMS_ALLOWED = []
 REQUIRED_THEOREMS = ["C11_ctor_consistent", "C11_ctor_uniform_weights", "C11_inv", "C11_reachable",
-                     "C11_gauss_reachable", "C11_pset_inv", "C11_pset_reachable", "C11_accessors",
-                     "C11_storage_is_concatenation_of_blocks", "C11_resize_components_preserves",
-                     "C11_pset_resize_components_preserves", "C11_augment_content", "C11_augment_twice_content",
-                     "C11_pset_augment_content", "C11_concat_content"]
+                     "C11_gauss_reachable", "C11_pset_inv", "C11_pset_reachable", "C11_copy_is_identity", "C11_invariant_executable",
+                     "C11_accessors", "C11_pset_accessors", "C11_gauss_accessors",
+                     "C11_storage_is_concatenation_of_blocks", "C11_components_view",
+                     "C11_resize_components_preserves", "C11_pset_resize_components_preserves",
+                     "C11_augment_content", "C11_augment_nonsquare", "C11_augment_twice_content",
+                     "C11_pset_augment_content", "C11_concat_content", "C11_plus_is_concat", "C11_concat_defined_iff"]
 TIMEOUT = 2400
 
 RULE = ("operation sequences from one seeded stream over gm / gauss / pset objects: constructor layouts components 1..4 x "
@@ -56,7 +58,7 @@ LEVEL_NOTE = ("Tied to the code by exact comparison of every descriptor, storage
               "dim/dim_covariance for concatenation, no non-empty noise augmentation of a ParticleSet (refuted otherwise: known finding).")
 
 LEN = {"quick": (1, 12), "thorough": (1, 60)}
-COUNTS = {"quick": 420, "thorough": 9000}
+COUNTS = {"quick": 420, "thorough": 6000}
 MAXC = 9
 MAXDIM = 16
 
@@ -184,7 +186,7 @@ def exhaustive(cid0):
     import itertools
     cases, cid = [], cid0
     starts = [(c, l, ci, q) for c in (1, 2) for (l, ci) in ((1, 0), (0, 1), (2, 1)) for q in (0, 1)]
-    lay = [(1, 0), (0, 1), (2, 1), (5, 0)]
+    lay = [(1, 0), (0, 1), (2, 1)]
     for kind in ("gm", "gauss", "pset"):
         for (c, l, ci, q) in starts:
             if kind == "gauss" and c != 1:
@@ -193,7 +195,7 @@ def exhaustive(cid0):
             if kind == "gauss":
                 alpha += ["R%d,%d" % x for x in lay]
             else:
-                alpha += ["R%d,%d,%d" % ((cc,) + x) for cc in (1, 3) for x in lay]
+                alpha += ["R%d,%d,%d" % ((cc,) + x) for cc in (1, 3) for x in lay] + ["R3,6,0"]   # (2,1,quat) -> (6,0): same dim
             if kind == "pset":
                 alpha += ["P", "D"]
             for n in (1, 2, 3):
@@ -230,6 +232,43 @@ def exhaustive(cid0):
     return cases
 
 
+def corpus():
+    """Minimal witnesses of the repaired defects and hand-picked boundary sequences; they run first, so that a
+    reintroduced defect is reported with the shortest replay."""
+    def mkc(cid, kind, c, l, ci, q, toks, qs=(), ctor="full"):
+        case = caseio.Case("c%d" % cid, kind, {"c": c, "l": l, "ci": ci, "q": q, "ctor": ctor, "corpus": 1})
+        for i, (r, cl) in enumerate(qs):
+            qmat(case, "q%d" % i, r, cl, 9100 + 100 * i)
+        case.word("ops", toks)
+        case.meta["len"] = len(toks)
+        case.meta["word"] = "".join(t[0] for t in toks)
+        return case
+    L = [
+        ("pset", 3, 2, 0, 0, ["P2,2,0,0,100"], ()),                      # 7c71916: += must update components
+        ("pset", 3, 2, 1, 0, ["R3,2,0"], ()),                            # eeaa10f: assignment in the early-return test
+        ("gm", 2, 2, 0, 0, ["Aq0", "R3,2,0"], ((1, 1),)),                # a255301: dim_noise survives a resize
+        ("gm", 2, 4, 0, 1, ["R3,0,1"], ()),                              # a255301: same dim, other covariance size
+        ("gm", 2, 2, 0, 0, ["F1", "Aq0", "Aq1"], ((1, 1), (2, 2))),      # 9b0609f: second augmentation
+        ("pset", 2, 2, 0, 0, ["F1", "Aq0", "R3,3,0"], ((1, 1),)),        # 28573a1: particle states not augmented
+        ("gm", 2, 2, 0, 0, ["F1", "R3,2,0"], ()),                        # only the component count: survivors kept
+        ("gm", 3, 2, 1, 1, ["F1", "R2,2,1"], ()),                        # shrinking, quaternion layout
+        ("gm", 2, 3, 0, 0, ["F1", "R3,2,0"], ()),                        # other shape, same number of cells: buffer kept
+        ("gm", 2, 3, 0, 0, ["F1", "R2,2,1"], ()),                        # same size, other split, same count: full branch, buffer kept
+        ("gm", 3, 0, 0, 0, ["Aq0", "F1", "Aq1"], ((0, 0), (2, 2))),      # empty layout, empty noise
+        ("gm", 2, 1, 1, 1, ["F1", "Aq0"], ((2, 3),)),                    # non-square noise covariance refused
+        ("gm", 1, 1, 0, 0, ["F1", "C", "M", "S"], (), "default"),
+        ("gauss", 1, 1, 0, 0, ["F1", "Aq0", "R2,1", "S"], ((1, 1),), "default"),
+        ("gauss", 1, 2, 1, 1, ["F1", "Aq0", "Aq1", "C"], ((1, 1), (2, 2))),
+        ("pset", 2, 1, 1, 1, ["F1", "D", "E", "R3,1,1"], ()),
+        ("pset", 2, 2, 0, 0, ["F1", "Aq0", "P1,3,0,0,500", "Q2,2,1,0,900"], ((1, 1),)),
+        ("pset", 1, 4, 0, 1, ["F1", "R2,0,1", "F9", "R1,0,1"], ()),      # quaternion split change: state kept, Gaussian part reset
+    ]
+    out = []
+    for i, t in enumerate(L):
+        out.append(mkc(i, *t[:6], qs=t[6], ctor=t[7] if len(t) > 7 else "full"))
+    return out
+
+
 def generate(rng, tier):
     cases = []
     for k in range(COUNTS[tier]):
@@ -237,7 +276,9 @@ def generate(rng, tier):
         cases.append(random_case(rng, k, tier, kind))
     if tier == "thorough":
         cases += exhaustive(len(cases))
-    return cases
+    # shortest sequences first: the first case violating a clause is the one written as replay
+    cases.sort(key=lambda c: int(c.meta.get("len", 0)))
+    return corpus() + cases
 
 
 def nontrivial(c):
@@ -286,6 +327,8 @@ def compare(c, impl, model):
     for k in range(steps(c) + 1):
         if stopped is not None and k > stopped:
             break
+        if k > 0 and model.get("%d.defined" % k) != 1:
+            d.append("%d.defined: the operation is outside the premises under which the model is faithful" % k)
         for f in INTS + ["model_consistent"]:
             name = "%d.%s" % (k, f)
             if f == "model_consistent":
@@ -479,9 +522,14 @@ def oracle(c, impl, model):
                 add(k, "concat-storage", "storage after concatenating %d and %d components: mean %s cov %s w %s state %s" % (pn, rn, mean.shape, cov.shape, w.shape, st.shape))
             if G(k, "ret") != 1:
                 add(k, "concat-return", "operator+= did not return *this")
-    # one report per signature is enough
-    seen, out = set(), []
+    # report the first failing step only (later steps inherit the damage), at most two clauses of it
+    seen, out, step0 = set(), [], None
     for s, dt in v:
+        st = dt.split(":")[0]
+        if step0 is None:
+            step0 = st
+        if st != step0 or len(out) >= 2:
+            break
         if s not in seen:
             seen.add(s); out.append((s, dt))
     return out
